@@ -384,7 +384,7 @@ func c14Complete(r *core.Run, rule string, isEOFZero func(ssa.Value) bool) {
 	for ret, a := range res {
 		rv := core.RetVals(ret)
 		ev := rv[len(rv)-1]
-		key := "(*tds.Packet).ReadFrom return " + core.Expr(ev)
+		key := "(*tds.Packet).ReadFrom return " + core.KExpr(ev)
 		n++
 		if a.bad != "" {
 			r.Bad(rule, key, ret.Pos(), a.bad)
